@@ -43,6 +43,13 @@ class BuildError(Exception):
     pass
 
 
+def _repo_tag():
+    """Scratch worktrees (VERIF_REPO) get their own build directory."""
+    if REPO == "/repo":
+        return ""
+    return "-" + hashlib.sha1(REPO.encode()).hexdigest()[:10]
+
+
 def _sha(path, cache):
     h = cache.get(path)
     if h is None:
@@ -91,7 +98,7 @@ def _compile(args):
 def build(variant="san", verbose=False):
     """Build (or refresh) a variant; returns dict of artefact paths."""
     spec = VARIANTS[variant]
-    out = os.path.join(WORK, "build", variant)
+    out = os.path.join(WORK, "build", variant + _repo_tag())
     os.makedirs(out, exist_ok=True)
     lock = open(os.path.join(out, ".lock"), "w")
     fcntl.flock(lock, fcntl.LOCK_EX)
